@@ -12,6 +12,9 @@ Variable is_ns : list string -> bool.
 Variable has : list string -> string -> bool.
 (* names declared inside structs and functions, as the name map collects them *)
 Variable inner : string -> bool.
+(* namespaces that are written into the output: those that hold a declaration, directly or in a namespace inside them
+   (an empty namespace is not emitted, so its name cannot capture a path in the emitted text) *)
+Variable live : list string -> bool.
 
 (* walk_into_scopes *)
 Fixpoint walk (s : list string) (dirs : list string) : option (list string) :=
@@ -49,7 +52,7 @@ Fixpoint lookup_from (frames : list (string -> bool)) (u : list string) (dirs : 
 Definition lookup_abs (dirs : list string) (leaf : string) : option found := option_map Declared (find_in [] dirs leaf).
 
 (* ---- the exporter ---- *)
-Definition declares (s : list string) (n : string) : bool := is_ns (n :: s) || has s n.
+Definition declares (s : list string) (n : string) : bool := (is_ns (n :: s) && live (n :: s)) || has s n.
 
 Fixpoint hidden_ns (u : list string) (n : string) : bool :=
   match u with
